@@ -242,6 +242,9 @@ pub enum Outcome {
     /// (reservations) a status information naming a receipt number, then the terminal aborts:
     /// nothing is reserved
     StatusThenAbort(u8),
+    /// (reservations) completion preceded by a status information that carries a trace number and an
+    /// amount but no receipt number
+    StatusWithoutReceipt,
 }
 
 /// The default (no-deviation) behaviour of the terminal for every command of DESIGN.md
@@ -375,6 +378,10 @@ pub fn default_script(t: &mut TermState, req: &ReqRec, outcome: &Outcome, interm
                     s.push(r.abort(*c));
                 }
                 Outcome::NoStatus => s.push(r.completion()),
+                Outcome::StatusWithoutReceipt => {
+                    s.push(r.status(&[("result_code", Val::Int(0)), ("amount", Val::Int(field("amount").unwrap_or(0))), ("trace_number", Val::Int(975)), ("currency", Val::Int(field("currency").unwrap_or(978)))], "status-without-receipt"));
+                    s.push(r.completion());
+                }
                 Outcome::Ok | Outcome::OkExtraStatus => {
                     let rc = t.free_receipt();
                     t.ledger.insert(rc);
